@@ -862,6 +862,129 @@ func fitFromAssignment(w *world, asg []int, rules []*placement.Rule, region *cor
 	return f
 }
 
+// ---------------------------------------------------------------- held results
+//
+// A RegionFit is kept and used by its caller (rule checker, filters, operator
+// builder) while other fits run. Every result of the case is therefore held,
+// snapshotted at return time, and re-validated after every later FitRegion call
+// with exactly the same validity predicates and comparison key; it must also be
+// deep-equal to its snapshot (same peer objects with the same content in every
+// rule fit, mismatch list and the orphan list, same isolation scores).
+
+type peerSnap struct {
+	p     *metapb.Peer
+	id    uint64
+	store uint64
+	role  metapb.PeerRole
+}
+
+type fitSnap struct {
+	ruleFits []*placement.RuleFit
+	rules    []*placement.Rule
+	peers    [][]peerSnap
+	diff     [][]peerSnap
+	iso      []float64
+	orphans  []peerSnap
+}
+
+func snapPeers(ps []*metapb.Peer) []peerSnap {
+	out := make([]peerSnap, 0, len(ps))
+	for _, p := range ps {
+		out = append(out, peerSnap{p, p.GetId(), p.GetStoreId(), p.GetRole()})
+	}
+	return out
+}
+
+func takeSnap(f *placement.RegionFit) fitSnap {
+	var s fitSnap
+	for _, rf := range f.RuleFits {
+		s.ruleFits = append(s.ruleFits, rf)
+		s.rules = append(s.rules, rf.Rule)
+		s.peers = append(s.peers, snapPeers(rf.Peers))
+		s.diff = append(s.diff, snapPeers(rf.PeersWithDifferentRole))
+		s.iso = append(s.iso, rf.IsolationScore)
+	}
+	s.orphans = snapPeers(f.OrphanPeers)
+	return s
+}
+
+func samePeers(what string, was []peerSnap, now []*metapb.Peer) error {
+	ids := func(ps []peerSnap) []uint64 {
+		var out []uint64
+		for _, p := range ps {
+			out = append(out, p.id)
+		}
+		return out
+	}
+	if len(was) != len(now) {
+		return fmt.Errorf("%s was %v when returned and is %v now", what, ids(was), peerIDs(now))
+	}
+	for i, p := range now {
+		if p != was[i].p || p.GetId() != was[i].id || p.GetStoreId() != was[i].store || p.GetRole() != was[i].role {
+			return fmt.Errorf("%s was %v when returned and is %v now (entry %d is another peer object or its content changed)", what, ids(was), peerIDs(now), i)
+		}
+	}
+	return nil
+}
+
+type held struct {
+	name  string
+	fit   *placement.RegionFit
+	w     *world
+	rules []*placement.Rule
+	idx   map[uint64]int
+	key   fkey
+	snap  fitSnap
+}
+
+func hold(name string, fit *placement.RegionFit, w *world, rules []*placement.Rule, idx map[uint64]int, key fkey) *held {
+	return &held{name, fit, w, rules, idx, key, takeSnap(fit)}
+}
+
+// recheck re-validates a held result after a later FitRegion call.
+func (h *held) recheck(after string) error {
+	wrap := func(err error) error {
+		return fmt.Errorf("the %s, still held by its caller, changed after %s: %v", h.name, after, err)
+	}
+	if len(h.fit.RuleFits) != len(h.snap.ruleFits) {
+		return wrap(fmt.Errorf("it had %d rule fits and has %d now", len(h.snap.ruleFits), len(h.fit.RuleFits)))
+	}
+	for r, rf := range h.fit.RuleFits {
+		if rf != h.snap.ruleFits[r] || rf.Rule != h.snap.rules[r] {
+			return wrap(fmt.Errorf("rule fit %d is another object now", r))
+		}
+		if err := samePeers(fmt.Sprintf("rule %d: Peers", r), h.snap.peers[r], rf.Peers); err != nil {
+			return wrap(err)
+		}
+		if err := samePeers(fmt.Sprintf("rule %d: PeersWithDifferentRole", r), h.snap.diff[r], rf.PeersWithDifferentRole); err != nil {
+			return wrap(err)
+		}
+		if rf.IsolationScore != h.snap.iso[r] {
+			return wrap(fmt.Errorf("rule %d: IsolationScore was %v and is %v now", r, h.snap.iso[r], rf.IsolationScore))
+		}
+	}
+	if err := samePeers("OrphanPeers", h.snap.orphans, h.fit.OrphanPeers); err != nil {
+		return wrap(err)
+	}
+	_, key, err := checkValid(h.w, h.fit, h.rules, h.idx)
+	if err != nil {
+		return wrap(fmt.Errorf("it is not valid any more: %v", err))
+	}
+	if cmpKey(key, h.key) != 0 || len(key.rules) != len(h.key.rules) {
+		return wrap(fmt.Errorf("its comparison key was {%v} and is {%v} now", h.key, key))
+	}
+	return nil
+}
+
+func recheckAll(hs []*held, after string) error {
+	for _, h := range hs {
+		if err := h.recheck(after); err != nil {
+			return err
+		}
+	}
+	return nil
+}
+
 // ---------------------------------------------------------------- runner
 
 func runCase(c Case) (vkit.Info, error) {
@@ -887,6 +1010,7 @@ func runCase(c Case) (vkit.Info, error) {
 	if err := checkGetRuleFit(fit, asg, ids); err != nil {
 		return info, err
 	}
+	holds := []*held{hold("fit of the region", fit, w, rules, idx, key)}
 
 	// ---- (b) optimality against the brute force
 	bk, basg, total, ties := w.best()
@@ -948,6 +1072,10 @@ func runCase(c Case) (vkit.Info, error) {
 		if err != nil {
 			return info, fmt.Errorf("without the last peer the returned fit is not valid: %v", err)
 		}
+		if err := recheckAll(holds, "fitting the region without its last peer"); err != nil {
+			return info, err
+		}
+		holds = append(holds, hold("fit of the region without its last peer", fit3, w3, rules, idx3, key3))
 		if bk3, basg3, total3, _ := w3.best(); cmpKey(bk3, key3) != 0 {
 			return info, fmt.Errorf("without the last peer the returned fit {%v} is not the best of the %d valid assignments: %v = {%v} is better", key3, total3, basg3, bk3)
 		}
@@ -977,6 +1105,10 @@ func runCase(c Case) (vkit.Info, error) {
 		if err != nil {
 			return info, fmt.Errorf("with stores in order %v, peers in order %v and peer ids %v the returned fit is not valid: %v", c.StorePerm, c.PeerPerm, c.PeerIDs, err)
 		}
+		if err := recheckAll(holds, "fitting the permuted region"); err != nil {
+			return info, err
+		}
+		holds = append(holds, hold("fit of the permuted region", fit2, w, rules2, idx2, key2))
 		if cmpKey(key, key2) != 0 {
 			return info, fmt.Errorf("permuting stores (%v) and peers (%v, ids %v) changed the result: {%v} became {%v}", c.StorePerm, c.PeerPerm, c.PeerIDs, key, key2)
 		}
@@ -986,6 +1118,39 @@ func runCase(c Case) (vkit.Info, error) {
 		if got := placement.CompareRegionFit(fit, fit2); got != 0 {
 			return info, fmt.Errorf("CompareRegionFit(fit, fit of the permuted input) = %d", got)
 		}
+	}
+
+	// ---- (e) one more fit of the same peers (reverse order, fresh peer objects and
+	// ids 31..): same key as the first fit, and every result held so far is unchanged.
+	{
+		n := len(c.Peers)
+		rev := make([]int, n)
+		for i := range rev {
+			rev[i] = n - 1 - i
+		}
+		region4, idx4 := buildRegion(&c, rev, seqU(n, 31))
+		fit4 := placement.FitRegion(stores, region4, rules)
+		_, key4, err := checkValid(w, fit4, rules, idx4)
+		if err != nil {
+			return info, fmt.Errorf("fitting the same peers again (reverse order, ids 31..) the returned fit is not valid: %v", err)
+		}
+		if cmpKey(key, key4) != 0 {
+			return info, fmt.Errorf("fitting the same peers again (reverse order, ids 31..) changed the result: {%v} became {%v}", key, key4)
+		}
+		if err := recheckAll(holds, "fitting the same peers again"); err != nil {
+			return info, err
+		}
+		held4 := hold("last fit", fit4, w, rules, idx4, key4)
+		if err := held4.recheck("re-validating the other held results"); err != nil {
+			return info, err
+		}
+		withOrphans := 0
+		for _, h := range holds {
+			if h.key.orphans > 0 {
+				withOrphans++
+			}
+		}
+		info.ClassIf(withOrphans >= 2, "held-results-with-orphans>=2")
 	}
 
 	// ---- classification
